@@ -529,6 +529,12 @@ def _get_cummat(trajs, lagtime):
         cummat_perm[idx] = np.cumsum(row[idx_sort])
         state_perm[idx] = idx_sort
 
+        # enforce that probability sums up to 1 at the last state with
+        # Tij>0, otherwise rounding errors allow jumps to states with Tij=0
+        npositive = np.count_nonzero(row)
+        if npositive:
+            cummat_perm[idx, npositive - 1:] = 1
+
     cummat_perm[:, -1] = 1  # enforce that probability sums up to 1
     return cummat_perm, state_perm
 
